@@ -4,6 +4,7 @@
 package main
 
 import (
+	"runtime"
 	"bufio"
 	"encoding/json"
 	"fmt"
@@ -52,10 +53,26 @@ func execLoop() {
 				writeLine(out, J{"res": J{"harness": "bad case json: " + jerr.Error()}})
 			} else {
 				done := make(chan interface{}, 1)
+				before := runtime.NumGoroutine()
 				go func() { done <- runCase(c) }()
 				var res interface{}
 				select {
 				case res = <-done:
+					// every goroutine the call started (the splice lexer) must be gone when it has returned
+					leaked := 0
+					for w := 0; w < 40; w++ {
+						if leaked = runtime.NumGoroutine() - before; leaked <= 0 {
+							break
+						}
+						time.Sleep(2 * time.Millisecond)
+					}
+					if leaked > 0 {
+						if m, ok := res.(J); ok {
+							m["leakedGoroutines"] = leaked
+						} else {
+							res = J{"res": res, "leakedGoroutines": leaked}
+						}
+					}
 				case <-time.After(caseTimeout):
 					// the call does not return (or is far too slow): report and die, the parent restarts us
 					writeLine(out, J{"i": c["i"], "res": J{"fatal": "timeout: the call did not return within " + caseTimeout.String()}})
